@@ -7,6 +7,7 @@ TARGETS = {
 PROPS = {
     "C16": dict(
         targets=["c16_lu", "c16_qr"],
+        shard_mult={"thorough": 3},
         level="exploration",
         rule="skyline LU, exact family: sparsity pattern (exhaustive: every off-diagonal pattern up to 4x4 [5x5 thorough]; random: path/grid/er/tree/band/star/union/diagonal graphs, n<=20, "
              "directions dropped independently => structurally non-symmetric, explicitly stored zeros, shuffled rows) x ordering (Cuthill-McKee, reverse Cuthill-McKee, identity and random "
